@@ -185,9 +185,15 @@ return __ALL if _N == 0 else _N
         ctx.add('C04.R3', f'BIOGEME.calculate_likelihood:{"scaled" if t != fv else "raw"}', (ok if ok or wrong else None), (f.file, r.lineno), (what if ok else wrong or f'{what}: the return of calculate_likelihood is not in the expected form (engine value, or engine value / sample size under `scaled`)'), t, positive=bool(wrong))
     g = B.methods['calculate_likelihood_and_derivatives']
     divisors = {unparse(n.right) for n in walk_no_nested(g.node) if isinstance(n, ast.BinOp) and isinstance(n.op, ast.Div) and isinstance(n.right, ast.Name)}
-    ss = [n for n in walk_no_nested(g.node) if isinstance(n, ast.Assign) and 'get_sample_size' in unparse(n.value) and isinstance(n.targets[0], ast.Name) and n.targets[0].id in divisors]
+    ss = [n for n in walk_no_nested(g.node) if isinstance(n, ast.Assign) and 'self.database.' in unparse(n.value) and isinstance(n.targets[0], ast.Name) and n.targets[0].id in divisors]
     ok = len(ss) == 1 and unparse(ss[0].value) in ('float(self.database.get_sample_size())', 'self.database.get_sample_size()')
-    ctx.add('C04.R3', 'BIOGEME.calculate_likelihood_and_derivatives:divisor', ok, g, f'the divisor is {unparse(ss[0].value) if ss else "?"}' + ('' if ok else '; expected the sample size of the database'), unparse(ss[0].value) if ss else '')
+    other_count = None
+    if not ok and len(ss) == 1:
+        m_ = re.fullmatch(r'(?:float\()?self\.database\.(\w+)\(\)\)?', unparse(ss[0].value))
+        if m_ and m_.group(1) != 'get_sample_size':
+            other_count = f'the value and its derivatives are divided by {unparse(ss[0].value)}: the scaled variant is the sum divided by the sample size (get_sample_size(): the number of individuals for panel data)'
+    ctx.add('C04.R3', 'BIOGEME.calculate_likelihood_and_derivatives:divisor', ok if (ok or other_count) else None, g, (f'the divisor is {unparse(ss[0].value)}' if ok else other_count or 'the divisor of the scaled variant is not in the expected form'),
+            unparse(ss[0].value) if ss else '', positive=bool(other_count))
     if ok:
         d = ss[0].targets[0].id
         cfg = cfg_of(g.node)
